@@ -77,11 +77,15 @@ structure Ord where
   cmp : Str → Str → Int
   vmatch : Str → Str → Bool
 
-/-- the order properties the `latest` / expression theorems need (to be discharged by C10) -/
-structure GoodOrd (cmp : Str → Str → Int) : Prop where
-  refl : ∀ a, cmp a a ≤ 0
-  flip : ∀ a b, 0 ≤ cmp a b → cmp b a ≤ 0
-  trans : ∀ a b c, cmp a b ≤ 0 → cmp b c ≤ 0 → cmp a c ≤ 0
+/-- the order properties the `latest` / expression theorems need, on the names satisfying `P`
+(C10 proves them for the conventional names; `Lemmas/VroC10.lean`) -/
+structure GoodOrdOn (P : Str → Prop) (cmp : Str → Str → Int) : Prop where
+  refl : ∀ a, P a → cmp a a ≤ 0
+  flip : ∀ a b, P a → P b → 0 ≤ cmp a b → cmp b a ≤ 0
+  trans : ∀ a b c, P a → P b → P c → cmp a b ≤ 0 → cmp b c ≤ 0 → cmp a c ≤ 0
+
+/-- the same on all names -/
+abbrev GoodOrd (cmp : Str → Str → Int) : Prop := GoodOrdOn (fun _ => True) cmp
 
 /-! ## the view a lookup has (interface with C07 / D16)
 
@@ -111,6 +115,9 @@ inductive Mode where
   | cache     -- `Eups()` and `noCache=False`: every lookup goes through the loaded cache
   | mixed     -- `Eups()` and `noCache=True`: the files, except `latest`, which still uses the cache
 deriving DecidableEq, Repr
+
+/-- every version name declared in the database satisfies `P` -/
+def DeclIn (P : Str → Prop) (db : Db) : Prop := ∀ st ∈ db, ∀ d ∈ st.decls, P d.version
 
 /-! ## per-stack lookups -/
 
